@@ -113,3 +113,27 @@ def run(ctx):
                 okt = True
     ctx.ob("T9-curvature-shape", cu.name, "term", "ok" if okt else "violation",
            "each term is Rational64::new(if loopless { 2 } else { 1 }, v)" if okt else "the per-orbit term is not (2 or 1)/v")
+    symbol_digits(ctx, g)
+
+
+def symbol_digits(ctx, g):
+    """the orbifold symbol names the orbifold only if it can be read back: a cone/corner degree is written bare only when it is a
+    single digit (Conway notation; `10` would read as the two degrees 1 and 0), otherwise in parentheses"""
+    ctx.clauses.append("orbifold symbol is unambiguous: a degree is printed bare only if it is at most 9 (T3)")
+    fn = M + "degree_list_as_string"
+    bodies = ctx.facts.with_closures(fn)
+    ctx.scan(bodies)
+    n = 0
+    for cb in bodies:
+        for bi, t in cb.calls("ToString::to_string"):
+            a = strip(norm(cb.origin(t["args"][0]), g))
+            if not (a[0] == "param" or (a[0] == "field" and a[1][0] == "param")):
+                continue
+            n += 1
+            fa = [atom_norm(x, g) for x in cb.facts_at(bi)]
+            fa = [("rel", x[1], strip(x[2]), strip(x[3])) if x[0] == "rel" else x for x in fa]
+            ok = any(implies(h, ("rel", "Le", a, ("int", 9))) for h in fa)
+            ctx.ob("T3-bare-degree-single-digit", cb.name, "to_string", "ok" if ok else "violation",
+                   "a degree is printed without parentheses only under %s <= 9" % show(a, 1) if ok else
+                   "a degree can be printed without parentheses although it has more than one digit (dominating facts: %s): the symbol no longer names one orbifold" % [show_atom(x)[:40] for x in fa], cb.span_of(bi))
+    ctx.floor("bare degree prints in degree_list_as_string", n, 1)
